@@ -44,17 +44,17 @@ type FOp struct {
 
 type FileInput struct {
 	// how the DAG comes to exist
-	Width   int    `json:"width"`
-	Chunker string `json:"chunker"`
-	Size    int    `json:"size"`
-	Seed    uint64 `json:"seed"`
+	Width   int      `json:"width"`
+	Chunker string   `json:"chunker"`
+	Size    int      `json:"size"`
+	Seed    uint64   `json:"seed"`
 	Ref     *refOpts `json:"ref,omitempty"` // written by the reference importer instead of the builder
 	// what is done with it
-	Mode    string  `json:"mode"` // build | history | faults | range | order
-	Opener  string  `json:"opener"` // direct | lazy | preload
-	Ops     []FOp   `json:"ops,omitempty"`
-	Faults  [][2]int `json:"faults,omitempty"` // preorder index, kind
-	A, B    int     `json:"-"`
+	Mode   string   `json:"mode"`   // build | history | faults | range | order
+	Opener string   `json:"opener"` // direct | lazy | preload
+	Ops    []FOp    `json:"ops,omitempty"`
+	Faults [][2]int `json:"faults,omitempty"` // preorder index, kind
+	A, B   int      `json:"-"`
 }
 
 func chunkLens(content []byte, chunker string) []int {
@@ -605,6 +605,63 @@ func runNoSizesFiles(rep *Report) {
 	}
 }
 
+// emptyFirstReader returns (0, nil) from its first Read and after every second delivery: allowed by io.Reader
+// ("discouraged"), e.g. an io.Pipe whose writer starts with an empty Write
+type emptyFirstReader struct {
+	r io.Reader
+	n int
+}
+
+func (e *emptyFirstReader) Read(p []byte) (int, error) {
+	e.n++
+	if e.n%2 == 1 {
+		return 0, nil
+	}
+	return e.r.Read(p)
+}
+
+// buildNoSizesTree stores a file DAG of the given depth whose interior nodes carry links but neither BlockSizes nor
+// FileSize (child sizes must be measured by opening the children), over dag-pb leaves with inline data
+func buildNoSizesTree(st *Store, depth int, fan int, next *int) (cid.Cid, []byte) {
+	if depth == 0 {
+		*next++
+		c := []byte(fmt.Sprintf("leaf-%03d;", *next))
+		fs := uint64(len(c))
+		n, err := qp.BuildMap(dagpb.Type.PBNode, -1, func(ma datamodel.MapAssembler) {
+			qp.MapEntry(ma, "Links", qp.List(0, func(la datamodel.ListAssembler) {}))
+			qp.MapEntry(ma, "Data", qp.Bytes(ufsData(2, c, true, &fs, nil, nil, nil)))
+		})
+		must(err)
+		k, err := st.PutPB(n, false)
+		must(err)
+		return k, c
+	}
+	var kids []cid.Cid
+	var content []byte
+	for i := 0; i < fan; i++ {
+		k, c := buildNoSizesTree(st, depth-1, fan, next)
+		kids = append(kids, k)
+		content = append(content, c...)
+	}
+	rootN, err := qp.BuildMap(dagpb.Type.PBNode, -1, func(ma datamodel.MapAssembler) {
+		qp.MapEntry(ma, "Links", qp.List(int64(len(kids)), func(la datamodel.ListAssembler) {
+			for _, k := range kids {
+				k := k
+				qp.ListEntry(la, qp.Map(-1, func(ma datamodel.MapAssembler) {
+					qp.MapEntry(ma, "Hash", qp.Link(cidlink.Link{Cid: k}))
+					qp.MapEntry(ma, "Name", qp.String(""))
+					qp.MapEntry(ma, "Tsize", qp.Int(int64(len(st.Blocks[k.KeyString()]))))
+				}))
+			}
+		}))
+		qp.MapEntry(ma, "Data", qp.Bytes(ufsData(2, nil, false, nil, nil, nil, nil)))
+	})
+	must(err)
+	root, err := st.PutPB(rootN, false)
+	must(err)
+	return root, content
+}
+
 func commonPrefix(a, b []byte) int {
 	i := 0
 	for i < len(a) && i < len(b) && a[i] == b[i] {
@@ -722,6 +779,7 @@ func runBuildCase(rep *Report, in FileInput, cf *CaseFile, fail func(prop, sig, 
 		func() io.Reader { return iotest.OneByteReader(bytes.NewReader(content)) },
 		func() io.Reader { return iotest.HalfReader(bytes.NewReader(content)) },
 		func() io.Reader { return iotest.DataErrReader(bytes.NewReader(content)) },
+		func() io.Reader { return &emptyFirstReader{r: bytes.NewReader(content)} },
 	} {
 		st2 := NewStore()
 		r2, s2, err := buildFileFrom(st2, in.Width, in.Chunker, mk())
@@ -754,7 +812,11 @@ func scnFiles(rep *Report, rng *Rng, tier string, outdir string) {
 	rep.P("C01").Exhaustive = false
 	addBuild := func(in FileInput) {
 		in.Mode = "build"
-		runFileInput(rep, in, cfB, nil)
+		cfUse := cfB
+		if in.Width > 1000 && tier != "thorough" {
+			cfUse = nil // quick tier: the wide tree is compared with the reference importer only (60 s in the model)
+		}
+		runFileInput(rep, in, cfUse, nil)
 		key := fmt.Sprint(in.Width, in.Chunker, in.Size, in.Seed)
 		nchunks := 0
 		if in.Size > 0 {
@@ -776,6 +838,8 @@ func scnFiles(rep *Report, rng *Rng, tier string, outdir string) {
 			addBuild(FileInput{Width: w, Chunker: "size-1", Size: n, Seed: uint64(w)})
 		}
 	}
+	// a very wide tree: more links per node than any size-derived cap (one root over 25000 leaves)
+	addBuild(FileInput{Width: 30000, Chunker: "size-1", Size: 25000, Seed: 7})
 	// deep, narrow trees (depth 8..10)
 	deep := [][2]int{{2, 127}, {2, 128}, {2, 129}, {2, 130}, {2, 255}, {2, 256}, {2, 257}, {2, 258}, {3, 728}, {3, 730}}
 	if tier == "thorough" {
